@@ -292,6 +292,12 @@ type cmpStats struct {
 	scalars, shared, realloc, largerInCopy, funcs, skippedRebound int
 }
 
+// isScratch: declared scratch prefixes of the subject, plus the byte buffers of every sampler (their
+// fill level depends on how much randomness was consumed).
+func isScratch(p string, pre []string) bool {
+	return strings.Contains(p, ".randomBuffer") || hasPrefixAny(p, pre)
+}
+
 func hasPrefixAny(p string, pre []string) bool {
 	np := normPath(p)
 	for _, x := range pre {
@@ -312,7 +318,7 @@ func compareObjects(o, c any, opt cmpOpts) (issues []issue, st cmpStats) {
 	aliasO := map[unsafe.Pointer]string{}
 	aliasC := map[unsafe.Pointer]string{}
 	add := func(class, path, detail string) {
-		if !opt.content && class != "shape-smaller" && hasPrefixAny(path, opt.scratch) {
+		if !opt.content && class != "shape-smaller" && isScratch(path, opt.scratch) {
 			// scratch memory of a used object: lazily filled big.Int / buffers legitimately differ
 			return
 		}
@@ -401,7 +407,7 @@ func compareObjects(o, c any, opt cmpOpts) (issues []issue, st cmpStats) {
 			}
 		case reflect.Array:
 			if pointerFree(t.Elem()) {
-				if opt.content && !hasPrefixAny(path, opt.scratch) && !reflect.DeepEqual(a.Interface(), b.Interface()) {
+				if opt.content && !isScratch(path, opt.scratch) && !reflect.DeepEqual(a.Interface(), b.Interface()) {
 					add("content-differs", path, "array contents differ")
 				}
 				return
@@ -430,7 +436,7 @@ func compareObjects(o, c any, opt cmpOpts) (issues []issue, st cmpStats) {
 			if la != lb {
 				if lb < la {
 					add("shape-smaller", path, fmt.Sprintf("length %d in the original, %d in the copy", la, lb))
-				} else if hasPrefixAny(path, opt.scratch) {
+				} else if isScratch(path, opt.scratch) {
 					st.largerInCopy++
 				} else {
 					add("shape-differs", path, fmt.Sprintf("length %d in the original, %d in the copy", la, lb))
@@ -451,7 +457,7 @@ func compareObjects(o, c any, opt cmpOpts) (issues []issue, st cmpStats) {
 				n = lb
 			}
 			if pointerFree(t.Elem()) {
-				if opt.content && !hasPrefixAny(path, opt.scratch) {
+				if opt.content && !isScratch(path, opt.scratch) {
 					sz := t.Elem().Size() * uintptr(n)
 					if hashBytes(pa, sz) != hashBytes(pb, sz) {
 						add("content-differs", path, fmt.Sprintf("first %d elements differ", n))
@@ -518,7 +524,7 @@ func compareObjects(o, c any, opt cmpOpts) (issues []issue, st cmpStats) {
 			}
 		default:
 			st.scalars++
-			if hasPrefixAny(path, opt.scratch) {
+			if isScratch(path, opt.scratch) {
 				return
 			}
 			var eq bool
